@@ -91,7 +91,8 @@ func (o UnmarshalOptions) unmarshal(b []byte, m protoreflect.Message) (out proto
 	if o.Resolver == nil {
 		o.Resolver = protoregistry.GlobalTypes
 	}
-	if !o.Merge {
+	merge := o.Merge
+	if !merge {
 		Reset(m.Interface())
 	}
 	allowPartial := o.AllowPartial
@@ -129,7 +130,9 @@ func (o UnmarshalOptions) unmarshal(b []byte, m protoreflect.Message) (out proto
 	if err != nil {
 		return out, err
 	}
-	if allowPartial || (out.Flags&protoiface.UnmarshalInitialized != 0) {
+	// UnmarshalInitialized covers what was decoded from b. When merging into
+	// a message that was not reset, what it held before must be checked too.
+	if allowPartial || (!merge && out.Flags&protoiface.UnmarshalInitialized != 0) {
 		return out, nil
 	}
 	return out, checkInitialized(m)
